@@ -308,6 +308,14 @@ func replayC11(arg string) string {
 		return fmt.Sprintf("ReadPDU: %T err=%v; accessor panics: %v", p, err, res.Panics)
 	case strings.HasPrefix(arg, "{"):
 		return replayC10(arg)
+	case strings.HasPrefix(arg, "command_status "):
+		var v uint32
+		fmt.Sscanf(strings.TrimPrefix(arg, "command_status "), "0x%X", &v)
+		var s1, s2 string
+		if panicked, msg := guard(func() { s1 = pdu.CommandStatus(v).String(); s2 = pdu.CommandStatus(v).Error() }); panicked {
+			return "CommandStatus.String/Error panicked: " + msg
+		}
+		return "CommandStatus.String = " + s1 + ", Error = " + s2
 	case strings.HasPrefix(arg, "message_state "):
 		var b int
 		fmt.Sscan(strings.TrimPrefix(arg, "message_state "), &b)
@@ -383,6 +391,9 @@ func corrC11(r *Run) {
 		r.Case(fmt.Sprintf("message_state_string %d", b), fmt.Sprintf("beq_obytes (message_state_string %d) (Ok %s)", b, coqHex([]byte(s))))
 	}
 	r.Sample(map[string]interface{}{"accessor": "MessageState.String", "octet": 10, "note": "the first value without a name: printed as a number"})
+
+	// ---- 1'. command_status over its whole range, and the oversized-UDH frame class (c11_status.go)
+	c11Status(r, ts)
 
 	// ---- 2. data_coding: every octet x hostile messages through Parse
 	msgs := [][]byte{{}, {0x41}, {0x1B}, {0x41, 0x1B}, {0xD8, 0x00}, {0xD8, 0x00, 0x41}, {0xFF, 0xFE, 0xFD}, {0x80, 0x81, 0x8F, 0xA0},
